@@ -102,3 +102,20 @@ Definition init_vm (t : bm) (rbits : list nat) : vm :=
        (repeat 0 (Topo.outputs t)) (repeat false (Topo.outputs t)) (repeat false (Topo.outputs t))
        (repeat 0 (length (iin t))) (repeat false (length (iin t))) (repeat false (length (iin t)))
        (repeat 0 (length (iout t))) (repeat false (length (iout t))) (repeat false (length (iout t))).
+
+(* the same tick with an arbitrary step function per processor (used to run a machine from the
+   source-level meaning of its programs) *)
+Definition compute_with (steps : list (pstate -> pstate)) (v : vm) : vm :=
+  let ps := map (fun p => fst p (snd p)) (combine steps (v_procs v)) in
+  mkVM ps (v_in v) (v_in_valid v) (v_in_recv v) (v_out v) (v_out_valid v) (v_out_recv v)
+       (v_iin v) (v_iin_valid v) (v_iin_recv v) (v_iout v) (v_iout_valid v) (v_iout_recv v).
+Definition tick_with (t : bm) (steps : list (pstate -> pstate)) (v : vm) : vm :=
+  post t (compute_with steps (backward_pre t (forward t v))).
+Definition rom_steps (cfg : list proc) : list (pstate -> pstate) := map (fun p => pstep (p_rsize p) (p_prog p)) cfg.
+
+Lemma tick_is_tick_with t cfg v : tick t cfg v = tick_with t (rom_steps cfg) v.
+Proof.
+  unfold tick, tick_with. f_equal. unfold compute, compute_with, rom_steps. f_equal.
+  generalize (v_procs (backward_pre t (forward t v))). induction cfg as [|c cfg IH]; intros [|p ps]; simpl; auto.
+  f_equal. apply IH.
+Qed.
